@@ -51,6 +51,11 @@ type C21Case struct {
 	Schedule []byte        `json:"schedule"`
 	Procs    int           `json:"procs"`
 	Repeat   int           `json:"repeat"`
+	// FaultAt > 0: the n-th datastore Next of every run fails (FaultKind "error") or panics inside the
+	// iterator (FaultKind "panic") — a fault while a message is being processed, possibly one that
+	// arrived over a cyclical edge.
+	FaultAt   int    `json:"fault_at,omitempty"`
+	FaultKind string `json:"fault_kind,omitempty"`
 }
 
 func ringModel(family, top int) (*m.Model, string, string) {
@@ -131,6 +136,14 @@ func genC21(t *rapid.T) C21Case {
 		o.MaxTuples = 60
 	}
 	c.Tuples, _ = gen.Tuples(t, mo, o)
+	if rapid.IntRange(0, 3).Draw(t, "fault") == 0 {
+		c.FaultAt = rapid.IntRange(1, 30).Draw(t, "faultAt")
+		// "panic" (a datastore iterator that panics) is supported by the check but not generated: the
+		// property quantifies over interleavings, not over panicking dependencies, and the unchanged
+		// pipeline itself does not finish its teardown under some injected panics (DESIGN.md section 6.3,
+		// replays/observations/C21-pipeline-hang-after-datastore-panic.json)
+		c.FaultKind = "error"
+	}
 	return c
 }
 
@@ -257,10 +270,24 @@ func checkC21(env *fw.Env, c C21Case) *fw.Failure {
 		verifhook.Set(rec.handle)
 		var objs []string
 		var lerr error
+		ds := s.DS
+		var fd *faultDS
+		if c.FaultAt > 0 {
+			fd = &faultDS{OpenFGADatastore: s.DS, panicOnFire: c.FaultKind == "panic"}
+			fd.arm(c.FaultAt, nil, c.FaultKind == "error")
+			ds = fd
+		}
 		returned := semkit.Watchdog(semkit.HangLimit(), func() {
-			objs, lerr, _ = semkit.CmdListObjects(context.Background(), s.DS, ts, storeID, c.Tuning, lr)
+			objs, lerr, _ = semkit.CmdListObjects(context.Background(), ds, ts, storeID, c.Tuning, lr)
 		})
 		verifhook.Set(nil)
+		faultLanded := fd != nil && fd.disarm()
+		if faultLanded {
+			classes = append(classes, "fault-landed:"+c.FaultKind)
+		}
+		if returned && faultLanded && lerr != nil {
+			continue // the fault surfaced as an error and the teardown completed: nothing more is asked
+		}
 		if !returned {
 			return fw.Failf("", "pipeline ListObjects(%+v) did not return within the hang limit: teardown did not complete (tuning %+v, GOMAXPROCS %d)\n%s\nstuck goroutines:\n%s",
 				lr, c.Tuning, c.Procs, semkit.Describe(w), semkit.GoroutineDump("listobjects"))
@@ -275,7 +302,7 @@ func checkC21(env *fw.Env, c C21Case) *fw.Failure {
 		rec.mu.Lock()
 		evs := append([]hookEvent{}, rec.events...)
 		rec.mu.Unlock()
-		if why := tracePredicates(evs); why != "" {
+		if why := tracePredicates(evs); why != "" && !faultLanded {
 			return fw.Failf("", "pipeline ListObjects(%+v): %s (tuning %+v, GOMAXPROCS %d)\n%s", lr, why, c.Tuning, c.Procs, semkit.Describe(w))
 		}
 		n := 0
